@@ -41,57 +41,12 @@ Definition c11_fails (c : cfg) (t : tstep) : list string :=
   ++ (if uniqb (tbl (t_pre t)) && negb (uniqb (tbl (t_post t))) then ["uniq"] else []).
 
 (* ---------------------------------------------------------------- *)
-(* Recorded finding classes of C11 (known_findings.txt): the code path that produced the reply,
-   with the demands that path is known not to check.  A failing step outside every class, or
-   failing a demand its class does not list, is reported as a new violation. *)
+(* Recorded finding classes (known_findings.txt): per failing step, the classes that explain it
+   (key, demands the class is known to fail).  A failing step outside every class, or failing a
+   demand its classes do not list, is reported as a new violation.
+   C11: none left (the five classes of the unchanged code were repaired, see FIXLOG.md). *)
 
-(* the lease as the handler sees it after Session.Parse and findOrCreate *)
-Definition seen (c : cfg) (t : tstep) (m : dmsg) : dstate * lease :=
-  findOrCreate c (parse_effect c (t_pre t) m) (getcid m) (m_chaddr m).
-
-Inductive path := PRetained | PRequested | PSelectOffer | PSelectFree | PCurrent.
-
-(* the code path that produced an OFFER / ACK, when it is one of the unvalidated ones *)
-Definition reply_path (c : cfg) (t : tstep) : option path :=
-  match t_op t, t_reply t with
-  | ODiscover now m, Some r =>
-      if is_offer r then
-        let '(s1, l) := seen c t m in
-        let l1 := discover_reset now l m in
-        match l_offer l1 with
-        | Some _ => Some PRetained      (* an earlier offer / the current lease is offered again without any check *)
-        | None =>
-            match phase1 (t_ch t) (put s1 l1) l1 (m_req m) with
-            | Some _ => Some PRequested (* allocIPOffer takes the requested address: only Allocated leases and FindIP are consulted *)
-            | None => None              (* pool scan *)
-            end
-        end
-      else None
-  | ORequest now m, Some r =>
-      if is_ack r then
-        let '(_, l) := seen c t m in
-        match l_state l with
-        | SDiscover => Some PSelectOffer  (* SELECT confirms the pending offer; other leases and the session are not consulted *)
-        | SFree => Some PSelectFree       (* SELECT with our server id on a lease in state Free (unknown / expired / re-created) *)
-        | SAllocated => Some PCurrent     (* renew / rebind / reboot / repeated select of the current lease *)
-        end
-      else None
-  | _, _ => None
-  end.
-
-Definition c11_class (c : cfg) (t : tstep) : list (string * list string) :=
-  match reply_path c t with
-  | Some PRetained => [("c11-discover-retained-offer-unchecked",
-                        ["acked-elsewhere"; "tracked-other-mac"; "network"; "broadcast"; "outside"])]
-  | Some PRequested => [("c11-discover-requested-ip-unchecked", ["network"; "broadcast"; "outside"])]
-  | Some PSelectOffer => [("c11-select-pending-offer-unchecked",
-                           ["acked-elsewhere"; "uniq"; "tracked-other-mac"; "network"; "broadcast"; "outside"])]
-  | Some PSelectFree => [("c11-select-free-lease-acked",
-                          ["acked-elsewhere"; "uniq"; "tracked-other-mac"; "network"; "broadcast"; "outside"])]
-  | Some PCurrent => [("c11-ack-current-lease-unchecked",
-                       ["acked-elsewhere"; "uniq"; "tracked-other-mac"; "network"; "broadcast"; "outside"])]
-  | None => []
-  end.
+Definition c11_class (c : cfg) (t : tstep) : list (string * list string) := [].
 
 Definition mem_str (x : string) (l : list string) : bool := existsb (String.eqb x) l.
 
@@ -158,26 +113,12 @@ Fixpoint before (a b : N) (l : list N) : bool :=   (* a occurs, and before any b
   | x :: r => if x =? a then true else if x =? b then false else before a b r
   end.
 
+(* the client's parameter request list names the router (3) before the subnet mask (1) *)
+Definition known_c12_prl (m : dmsg) : bool := before 3 1 (m_prl m).
+
 Definition c12_class (c : cfg) (t : tstep) : list (string * list string) :=
-  (match reply_path c t with
-   | Some PRetained => [("c12-discover-retained-offer-unchecked", ["yi-outside"])]
-   | Some PRequested => [("c12-discover-requested-ip-unchecked", ["yi-outside"])]
-   | Some PSelectOffer => [("c12-select-pending-offer-unchecked", ["yi-outside"; "ack-unhonourable"])]
-   | Some PSelectFree => [("c12-select-free-lease-acked", ["yi-outside"; "ack-mismatch"; "ack-unhonourable"])]
-   | Some PCurrent => [("c12-ack-current-lease-unchecked", ["yi-outside"; "ack-mismatch"; "ack-unhonourable"])]
-   | None => []
-   end)
-  ++ (* netfilter prefix = home LAN (the configuration of dhcp4_spoofer.New): findOrCreate compares the LANs
-        only, so a lease keeps the subnet (router, DNS) it was created with across capture / release *)
-  (match op_msg (t_op t), t_reply t with
-   | Some m, Some r =>
-       if is_lease_reply r && lan_same c false true
-          && negb (Bool.eqb (l_net2 (snd (seen c t m))) (client_net c (t_pre t) m))
-       then [("c12-same-lan-subnet-kept-across-capture", ["router"; "dns"])] else []
-   | _, _ => []
-   end)
-  ++ (* AppendOptions emits the client's parameter request list first: router before mask when it says so *)
-  (match op_msg (t_op t) with
-   | Some m => if before 3 1 (m_prl m) then [("c12-prl-router-before-mask", ["mask-after-router"])] else []
-   | None => []
-   end).
+  (* AppendOptions emits the client's parameter request list first: router before mask when it says so *)
+  match op_msg (t_op t) with
+  | Some m => if known_c12_prl m then [("c12-prl-router-before-mask", ["mask-after-router"])] else []
+  | None => []
+  end.
